@@ -46,6 +46,8 @@ def run(run):
     _r2(run)
     _r3(run, ev)
     _r4(run)
+    from . import imgrep
+    imgrep.check(run, "C16.R5")
 
 
 def _pc(h, key, default):
